@@ -317,6 +317,57 @@ def oracle_rejects(ck, rng):
         ck.violation(what="a chain of 120 sort/head/filter calls broke row consistency", inp={}, key={"site": "drift"}, oracle="orientation_drift")
 
 
+def oracle_no_aliasing(ck, rng):
+    """a table operation that happens to keep every row still returns a new molecule set: changing the result in place (append,
+    translate / rotate with copy=False, assigning features) never changes the input, and vice versa"""
+    import polars as pl
+    from acryo import Molecules
+    n = int(rng.integers(3, 7))
+    tags = [int(x) for x in rng.permutation(np.arange(1, 30))[:n]]
+    vs = [1] * n
+    ops = {
+        "filter(all true)": lambda m: m.filter(pl.col("tag") > 0),
+        "filter(mask all true)": lambda m: m.filter(np.ones(len(m), dtype=bool)) if False else m.filter(pl.lit(True)),
+        "subset(all)": lambda m: m.subset(list(range(len(m)))),
+        "subset(slice)": lambda m: m.subset(slice(None)),
+        "subset(mask)": lambda m: m.subset(np.ones(len(m), dtype=bool)),
+        "sort(already sorted)": lambda m: m.sort("v"),
+        "head(n)": lambda m: m.head(len(m)),
+        "tail(n)": lambda m: m.tail(len(m)),
+        "head(n + 3)": lambda m: m.head(len(m) + 3),
+        "sample(n)": lambda m: m.sample(len(m), seed=1).sort("tag") if False else m.sample(len(m), seed=1),
+        "with_features([])": lambda m: m.with_features([]),
+        "drop_features([])": lambda m: m.drop_features([]),
+        "concat([m])": lambda m: Molecules.concat([m]),
+        "concat_with(empty)": lambda m: m.concat_with(Molecules.empty(), nullable=True) if False else m.concat_with(make([], [])),
+        "copy": lambda m: m.copy(),
+        "group_by(one group)": lambda m: list(m.group_by("v"))[0][1],
+        "translate(0)": lambda m: m.translate([0.0, 0.0, 0.0]),
+        "translate_internal(0)": lambda m: m.translate_internal([0.0, 0.0, 0.0]),
+        "rotate_by_rotvec(0)": lambda m: m.rotate_by_rotvec([0.0, 0.0, 0.0]),
+    }
+    extra = make([77], [5])
+    for name, op in ops.items():
+        for who in ("result", "input"):
+            m = make(tags, vs)
+            before = decode(m)
+            ck.oracle_count("no_aliasing", 1, 1)
+            try:
+                r = op(m)
+                rb = decode(r)
+                tgt, other, ob = (r, m, before) if who == "result" else (m, r, rb)
+                tgt.append(extra)
+                tgt.translate([1.0, 2.0, 3.0], copy=False)
+                tgt.features = tgt.features.with_columns(pl.col("v") + 100)
+                bad = None
+                if decode(other) != ob:
+                    bad = f"changing the {who} in place (append, translate(copy=False), features=) changed the {'input' if who == 'result' else 'result'} too"
+            except Exception as e:  # noqa
+                bad = None if name in ("concat_with(empty)", "sample(n)") and isinstance(e, (ValueError, TypeError)) else f"raised {type(e).__name__}: {e}"
+            if bad:
+                ck.violation(what=f"{name}: {bad}", inp={"operation": name, "changed": who, "tags": tags}, key={"site": "aliasing", "op": name.split("(")[0]}, oracle="no_aliasing")
+
+
 def run(ck: common.Check):
     ck.design_ref = "DESIGN.md §6 C12"
     ck.trusted_base = TB
@@ -329,6 +380,7 @@ def run(ck: common.Check):
     rng = np.random.default_rng(ck.seed + 1212)
     corr_histories(ck, rng)
     oracle_rejects(ck, rng)
+    oracle_no_aliasing(ck, np.random.default_rng(ck.seed + 12012))
 
 
 def replay(data):
